@@ -713,6 +713,9 @@ func (d *Decoder) Repair(checkParity bool) ([]string, error) {
 			}
 		}
 
+		if decoderInputFileInfo.byteCount > buf.Len() {
+			return repairedPaths, errors.New("file byte count exceeds its slice data")
+		}
 		data := buf.Bytes()[:decoderInputFileInfo.byteCount]
 		if sixteenKHash(data) != decoderInputFileInfo.sixteenKHash {
 			return repairedPaths, errors.New("hash mismatch (16k) in reconstructed data")
